@@ -265,6 +265,7 @@ func (s *Sorts) SortOf(t types.Type) string {
 				s.decls = append(s.decls, fmt.Sprintf("(assert (forall ((a!c %s) (i!c Int)) (! (and (<= 0 (at_%s a!c i!c)) (<= (at_%s a!c i!c) 255)) :pattern ((at_%s a!c i!c)))))", srt, srt, srt, srt))
 				s.declare("slice_"+srt, fmt.Sprintf("(declare-fun slice_%s (%s) (Slice Int))", srt, srt))
 				s.decls = append(s.decls, fmt.Sprintf("(assert (forall ((a!c %s)) (! (and (= (s_len (slice_%s a!c)) %d) (not (s_nil (slice_%s a!c)))) :pattern ((slice_%s a!c)))))", srt, srt, n, srt, srt))
+				s.decls = append(s.decls, fmt.Sprintf("(assert (forall ((a!c %s) (i!c Int)) (! (=> (and (<= 0 i!c) (< i!c %d)) (= (select (s_arr (slice_%s a!c)) i!c) (at_%s a!c i!c))) :pattern ((select (s_arr (slice_%s a!c)) i!c)))))", srt, n, srt, srt, srt))
 				s.decls = append(s.decls, fmt.Sprintf("(assert (forall ((a!c %s) (b!c %s)) (! (=> (= (slice_%s a!c) (slice_%s b!c)) (= a!c b!c)) :pattern ((slice_%s a!c) (slice_%s b!c)))))", srt, srt, srt, srt, srt, srt))
 			}
 			return srt
